@@ -43,67 +43,87 @@ func c16Strip(doc string, path ...string) string {
 	return string(b)
 }
 
-func c16RunCacheEvents(ctx context.Context, sh map[string]string) c16Res {
-	node := c16NewNode(c16NodeVersion("teku"))
-	defer node.Close()
-	ver := sh["ver"]
-	install := func() {
-		if a, ok := c16BadAnswer(sh["body"]); ok {
-			node.Set("/eth/v2/beacon/blocks/", a)
-		} else {
-			blockVer := ver
-			if ver == "unknown" {
-				blockVer, ver = "deneb", "verkle"
-			}
-			data := c16SignedBlockData(blockVer, c16BlockSpec{Slot: c16Slot})
-			switch sh["body"] {
-			case "nomessage":
-				data = c16Strip(data, "message")
-			case "nobody":
-				data = c16Strip(data, "message", "body")
-			case "nopayload":
-				if blockVer != "phase0" && blockVer != "altair" {
-					data = c16Strip(data, "message", "body", "execution_payload")
-				}
-			}
-			node.Set("/eth/v2/beacon/blocks/", c16Answer{Status: 200, Headers: map[string]string{"Eth-Consensus-Version": ver},
-				Body: fmt.Sprintf(`{"version":%q,"execution_optimistic":false,"finalized":false,"data":%s}`, ver, data)})
-		}
-	}
-	client := c16NodeClient(ctx, node)
-	events := &c16Events{handlers: map[string]eth2client.EventHandlerFunc{}}
+// c16CacheInst: the cache service with the node its head events point to.
+type c16CacheInst struct {
+	node   *c16Server
+	gate   *c16Gate
+	events *c16Events
+	s      *standardcache.Service
+}
+
+func c16NewCacheInst(ctx context.Context, _ map[string]string) c16Instance {
+	in := &c16CacheInst{node: c16NewNode(c16NodeVersion("teku")), gate: &c16Gate{}, events: &c16Events{handlers: map[string]eth2client.EventHandlerFunc{}}}
+	in.node.Gate("/eth/v2/beacon/blocks/", in.gate)
+	client := c16NodeClient(ctx, in.node)
+	// the node has no block at start-up; the scripted blocks arrive with the events
 	s, err := standardcache.New(ctx,
 		standardcache.WithLogLevel(c16LogLevel()),
 		standardcache.WithMonitor(nullmetrics.New()),
 		standardcache.WithChainTime(c16NowChainTime()),
 		standardcache.WithSignedBeaconBlockProvider(client.(eth2client.SignedBeaconBlockProvider)),
 		standardcache.WithBeaconBlockHeadersProvider(mock.NewBeaconBlockHeadersProvider()),
-		standardcache.WithEventsProvider(events),
+		standardcache.WithEventsProvider(in.events),
 		standardcache.WithScheduler(verifsupport.NewScheduler()),
 	)
 	if err != nil {
 		panic("c16 harness: cache: " + err.Error())
 	}
-	// the node has no block at start-up; the scripted block arrives with the event
-	install()
-	_, before := s.ExecutionChainHead(ctx)
-	root := phase0.Root{0x99}
+	in.s = s
+	return in
+}
+
+func (in *c16CacheInst) Gate() *c16Gate { return in.gate }
+func (in *c16CacheInst) Close() {
+	in.gate.Release()
+	in.node.Close()
+}
+
+// Prepare: the block the node has for the head of call k (slot and execution block number advance).
+func (in *c16CacheInst) Prepare(k int, sh map[string]string) {
+	ver := sh["ver"]
+	if a, ok := c16BadAnswer(sh["body"]); ok {
+		in.node.Set("/eth/v2/beacon/blocks/", a)
+		return
+	}
+	blockVer := ver
+	if ver == "unknown" {
+		blockVer, ver = "deneb", "verkle"
+	}
+	data := c16SignedBlockData(blockVer, c16BlockSpec{Slot: c16CallSlot(k), Number: uint64(100 + k - 1)})
+	switch sh["body"] {
+	case "nomessage":
+		data = c16Strip(data, "message")
+	case "nobody":
+		data = c16Strip(data, "message", "body")
+	case "nopayload":
+		if blockVer != "phase0" && blockVer != "altair" {
+			data = c16Strip(data, "message", "body", "execution_payload")
+		}
+	}
+	in.node.Set("/eth/v2/beacon/blocks/", c16Answer{Status: 200, Headers: map[string]string{"Eth-Consensus-Version": ver},
+		Body: fmt.Sprintf(`{"version":%q,"execution_optimistic":false,"finalized":false,"data":%s}`, ver, data)})
+}
+
+func (in *c16CacheInst) Invoke(ctx context.Context, k int, sh map[string]string) c16Res {
+	_, before := in.s.ExecutionChainHead(ctx)
+	slot := c16CallSlot(k)
+	root := phase0.Root{0x99, byte(k)}
 	switch sh["event"] {
 	case "head":
-		events.handlers["head"](&apiv1.Event{Topic: "head", Data: &apiv1.HeadEvent{Slot: c16Slot, Block: root}})
+		in.events.handlers["head"](&apiv1.Event{Topic: "head", Data: &apiv1.HeadEvent{Slot: slot, Block: root}})
 	case "block":
-		events.handlers["block"](&apiv1.Event{Topic: "block", Data: &apiv1.BlockEvent{Slot: c16Slot, Block: root}})
-		slot, err := s.BlockRootToSlot(ctx, root)
-		if err != nil || slot != c16Slot {
+		in.events.handlers["block"](&apiv1.Event{Topic: "block", Data: &apiv1.BlockEvent{Slot: slot, Block: root}})
+		got, err := in.s.BlockRootToSlot(ctx, root)
+		if err != nil || got != slot {
 			return c16Err("block event not recorded")
 		}
 		return c16OK("block recorded")
 	case "nildata":
-		events.handlers["head"](&apiv1.Event{Topic: "head"})
-		events.handlers["block"](&apiv1.Event{Topic: "block"})
+		in.events.handlers["head"](&apiv1.Event{Topic: "head"})
+		in.events.handlers["block"](&apiv1.Event{Topic: "block"})
 		return c16Fallback("events without data ignored")
 	}
-	_, after := s.ExecutionChainHead(ctx)
+	_, after := in.s.ExecutionChainHead(ctx)
 	if after == before {
 		return c16Fallback("execution head not updated")
 	}
@@ -111,5 +131,5 @@ func c16RunCacheEvents(ctx context.Context, sh map[string]string) c16Res {
 }
 
 func init() {
-	c16Register("cacheevents", c16RunCacheEvents)
+	c16RegisterInstance("cacheevents", c16NewCacheInst)
 }
